@@ -897,8 +897,8 @@ static ZSTDMT_jobDescription* ZSTDMT_createJobsTable(U32* nbJobsPtr, ZSTD_custom
     ZSTDMT_jobDescription* const jobTable = (ZSTDMT_jobDescription*)
                 ZSTD_customCalloc(nbJobs * sizeof(ZSTDMT_jobDescription), cMem);
     int initError = 0;
-    if (jobTable==NULL) return NULL;
     *nbJobsPtr = nbJobs;
+    if (jobTable==NULL) return NULL;
     for (jobNb=0; jobNb<nbJobs; jobNb++) {
         initError |= ZSTD_pthread_mutex_init(&jobTable[jobNb].job_mutex, NULL);
         initError |= ZSTD_pthread_cond_init(&jobTable[jobNb].job_cond, NULL);
@@ -992,7 +992,7 @@ static void ZSTDMT_releaseAllJobResources(ZSTDMT_CCtx* mtctx)
 {
     unsigned jobID;
     DEBUGLOG(3, "ZSTDMT_releaseAllJobResources");
-    for (jobID=0; jobID <= mtctx->jobIDMask; jobID++) {
+    for (jobID=0; (mtctx->jobs != NULL) && (jobID <= mtctx->jobIDMask); jobID++) {   /* jobs table can be NULL after a failed allocation */
         /* Copy the mutex/cond out */
         ZSTD_pthread_mutex_t const mutex = mtctx->jobs[jobID].job_mutex;
         ZSTD_pthread_cond_t const cond = mtctx->jobs[jobID].job_cond;
